@@ -217,6 +217,14 @@ def main(argv):
             print('infrastructure failure: model driver does not build', file=sys.stderr)
             print(out[-2000:], file=sys.stderr)
             return 2
+    # last resort against a call into the implementation that never returns: the whole run is bounded (exit 2)
+    import signal
+
+    def hard_stop(signum, frame):
+        print(f'infrastructure failure: check {prop} exceeded its hard time limit', file=sys.stderr)
+        os._exit(2)
+    signal.signal(signal.SIGALRM, hard_stop)
+    signal.alarm(1500 if tier == 'quick' else 9000)
     try:
         # minimised past failures first (regression corpus), then the generated suites
         cdir = os.path.join(lib.VERIF, 'corpus', prop)
